@@ -7,12 +7,15 @@ INDEPENDENT readers = the extracted spec parsers (SpecTape.parse, SpecDisk.fsck 
 driver; correspondence = the same invocation through the extracted model MVirtualFile (driver commands vfstore,
 vfhist, futil, asmsave)."""
 import concurrent.futures
+import hashlib
 import json
 import os
 import re
+import queue
 import shutil
 import subprocess
 import tempfile
+import threading
 
 import common
 import cassette as cas
@@ -31,11 +34,76 @@ KF_GARBAGE = "bytes_sniffed_as_tape"
 POOL = 8
 
 
+LOCK = threading.RLock()
+
+
+def bump(rep, key):
+    with LOCK:
+        rep.cov[key] = rep.cov.get(key, 0) + 1
+
+
+def hbump(hist, key):
+    if hist is None:
+        return
+    with LOCK:
+        hist[key] = hist.get(key, 0) + 1
+
+
+class TSReport:
+    """the Report shared by the worker threads: every mutating call under one lock"""
+
+    def __init__(self, rep):
+        object.__setattr__(self, "_r", rep)
+
+    def __getattr__(self, n):
+        a = getattr(self._r, n)
+        if callable(a) and n in ("violation", "known_finding", "count", "sample", "full"):
+            def locked(*x, **k):
+                with LOCK:
+                    return a(*x, **k)
+            return locked
+        return a
+
+    def __setattr__(self, n, v):
+        setattr(self._r, n, v)
+
+
+def par_map(fn, items, rep):
+    """fn(drv, item) over items on POOL worker threads, each with its own driver process; order preserved"""
+    items = list(items)
+    if not items:
+        return []
+    k = min(POOL, len(items))
+    q = queue.Queue()
+    drivers = [VDriver() for _ in range(k)]
+    for d in drivers:
+        q.put(d)
+
+    def work(item):
+        if rep.full():
+            return None
+        d = q.get()
+        try:
+            return fn(d, item)
+        finally:
+            q.put(d)
+    try:
+        with concurrent.futures.ThreadPoolExecutor(k) as ex:
+            return list(ex.map(work, items))
+    finally:
+        for d in drivers:
+            d.close()
+
+
 class VDriver(common.Driver):
     def __init__(self):
         path = os.environ.get("VERIF_VF_DRIVER") or os.path.join(common.BUILD, "driver")
         self.p = subprocess.Popen([path], stdin=subprocess.PIPE, stdout=subprocess.PIPE, text=True, bufsize=1 << 20,
                                   preexec_fn=common._unlimit_stack)
+
+
+def digest(x):
+    return hashlib.sha256(json.dumps(x, sort_keys=True, default=str).encode()).hexdigest()
 
 
 def hx(b):
@@ -281,7 +349,7 @@ def out_events(tool, out):
                 ev.append("?" + l[:40])
         else:
             if m:
-                ev.append("F%s:%s" % (m.group(1), hx(m.group(2).encode("latin-1"))))
+                ev.append("F%s:%s" % (m.group(1), hx(m.group(2).encode("latin-1")).upper()))
             elif l.startswith("Saved to "):
                 ev.append("S")
             elif l.startswith("More than one file exists"):
@@ -347,9 +415,9 @@ def judge_step(pid, drv, rep, inv, ob, newfiles, payload, prog=None, hist=None, 
     except Exception as e:  # noqa
         rep.violation("model driver failed: %s" % e, dict(payload, kind="case"), found_input=False)
         return False
-    rep.cov["traces_validated_against_impl"] += 1
+    bump(rep, "traces_validated_against_impl")
     if model is None:
-        rep.cov["unmodelled"] = rep.cov.get("unmodelled", 0) + 1
+        bump(rep, "unmodelled")
     for tgt, kind in targets.items():
         old = before[tgt][0] if tgt in before else None
         new = after[tgt][0] if tgt in after else None
@@ -358,8 +426,7 @@ def judge_step(pid, drv, rep, inv, ob, newfiles, payload, prog=None, hist=None, 
         append = bool(inv.get("append"))
         allowed = old is None or (append and (kind == "bin" or okind == kind))
         key = "%s/%s/%s/%s" % (tool, kind, "append" if append else "noappend", "absent" if old is None else okind)
-        if hist is not None:
-            hist[key + ("/written" if written else "/refused")] = hist.get(key + ("/written" if written else "/refused"), 0) + 1
+        hbump(hist, key + ("/written" if written else "/refused"))
         if new is None and old is not None:
             rep.violation("target %s was deleted" % tgt, dict(payload, kind="case"))
             ok = False
@@ -389,7 +456,7 @@ def judge_step(pid, drv, rep, inv, ob, newfiles, payload, prog=None, hist=None, 
                               dict(payload, kind="case", target=tgt))
                 ok = False
             elif old is None and model is not None and mnew is not None:
-                rep.cov["disagreements_checked"] += 1
+                bump(rep, "disagreements_checked")
                 rep.violation("correspondence: model writes the new target %s, implementation refused: %r" % (tgt, ob["out"][:120]),
                               dict(payload, kind="case", target=tgt, relation="MVirtualFile.store = open/add/save"), found_input=False)
                 ok = False
@@ -397,7 +464,7 @@ def judge_step(pid, drv, rep, inv, ob, newfiles, payload, prog=None, hist=None, 
                 if old is not None and len(old) >= SIZE and okind == "cas":
                     pass     # big tape refused: C09's business (kind not recognised), consistent with C10
                 else:
-                    rep.cov["disagreements_checked"] += 1
+                    bump(rep, "disagreements_checked")
                     rep.violation("correspondence: model writes %s, implementation refused: %r" % (tgt, ob["out"][:120]),
                                   dict(payload, kind="case", target=tgt, relation="MVirtualFile.store = open/add/save"), found_input=False)
                     ok = False
@@ -417,13 +484,13 @@ def judge_step(pid, drv, rep, inv, ob, newfiles, payload, prog=None, hist=None, 
             in_empty = kind == "cas" and old is not None and okind == "cas" and any(len(f[6]) == 0 for f in (spec_cas(drv, old) or []))
             in_empty = in_empty or empty_src
             if in_empty and KF_EMPTY in kf and model is not None and mnew == new:
-                rep.known_finding(KF_EMPTY, "appending to a tape holding a file with empty data drops it and every later file (cassette.py read_file `if not data`)")
+                rep.known_finding(KF_EMPTY, "a tape holding a file with empty data is read without it and without every later file: the image written from that listing lacks them (cassette.py read_file `if not data`)")
             else:
                 rep.violation(why, dict(payload, kind="case", target=tgt))
                 ok = False
                 continue
         if model is not None and mnew != new:
-            rep.cov["disagreements_checked"] += 1
+            bump(rep, "disagreements_checked")
             rep.violation("correspondence: bytes written to %s differ from the model's (%s)" % (tgt, "model refuses" if mnew == old else "both write"),
                           dict(payload, kind="case", target=tgt, relation="MVirtualFile.store/build_image = VirtualFile.save_virtual_file (byte-for-byte)"),
                           found_input=False)
@@ -434,7 +501,7 @@ def judge_step(pid, drv, rep, inv, ob, newfiles, payload, prog=None, hist=None, 
         if tool == "futil" and inv.get("list"):
             me, ie = [e for e in me if e != "L"], []
         if me != ie or (model["rc"] is not None and model["rc"] != ob["rc"]):
-            rep.cov["disagreements_checked"] += 1
+            bump(rep, "disagreements_checked")
             rep.violation("correspondence: CLI messages / exit status differ from the model: impl %s rc=%s, model %s rc=%s" % (ie[:8], ob["rc"], me[:8], model["rc"]),
                           dict(payload, kind="case", relation="MVirtualFile.file_util / asm_save events and exit status"), found_input=False)
             ok = False
@@ -599,14 +666,12 @@ def run_c10(pid, tier, rng, drv, rep, hist):
     cases = c10_cases(rng, tier) + c10_sequences(rng, tier, {"quick": 24, "thorough": 400}[tier])
     allobs = run_cases(cases)
     for case, obs in zip(cases, allobs):
-        if rep.full():
-            break
-        rep.count(json.dumps([case["label"], sorted(case["files"].items()), case["invs"]], sort_keys=True, default=str)[:6000] + str(len(str(case))))
-        hist["case:" + case["label"].split("/")[0]] = hist.get("case:" + case["label"].split("/")[0], 0) + 1
+        rep.count(digest([sorted(case["files"].items()), case["invs"]]))
+        hbump(hist, "case:" + case["label"].split("/")[0])
         if len(rep.cov["samples"]) < 5 and case["label"] != "sequence":
             rep.sample({"case": case["label"], "stdout": obs[0]["out"][:160], "rc": obs[0]["rc"],
                         "target_written": obs[0]["after"].get("t.out") != obs[0]["before"].get("t.out")})
-        c10_check_case(pid, drv, rep, case, obs, hist)
+    par_map(lambda d, co: c10_check_case(pid, d, rep, co[0], co[1], hist), zip(cases, allobs), rep)
 
 
 # ---------------------------------------------------------------------------------------------
@@ -687,7 +752,7 @@ def c09_check_history(pid, drv, rep, kind, ops, hist):
     adds = [o[1] for o in ops if o[0] == "A"]
     snaps = inproc_history(kind, ops)
     mr = drv.ask("vfhist %s %s" % (kind, enc_ops(ops)))
-    rep.cov["traces_validated_against_impl"] += 1
+    bump(rep, "traces_validated_against_impl")
     # finding classes an input may fall in
     saves_after = lambda i: any(o[0] == "S" for o in ops[i + 1:]) or True
     empty_cls = kind == "cas" and any(o[0] == "A" and len(o[1][6]) == 0 for o in ops)
@@ -698,7 +763,7 @@ def c09_check_history(pid, drv, rep, kind, ops, hist):
         if "bytes" not in s:
             # a save failed: legitimate only as a full disk, and the model must agree
             if kind == "dsk" and mr.startswith("DIAG"):
-                hist["disk_full"] = hist.get("disk_full", 0) + 1
+                hbump(hist, "disk_full")
                 return True
             rep.violation("save failed in a history: %s (model: %s)" % (s["error"][:160], mr[:40]), key)
             return False
@@ -725,9 +790,9 @@ def c09_check_history(pid, drv, rep, kind, ops, hist):
         return False
     # correspondence: the final image byte for byte
     if mr.startswith("UNMODELLED") or mr.startswith("FUEL"):
-        rep.cov["unmodelled"] = rep.cov.get("unmodelled", 0) + 1
+        bump(rep, "unmodelled")
     elif not (mr.startswith("OK ") and unhx(mr[3:]) == final):
-        rep.cov["disagreements_checked"] += 1
+        bump(rep, "disagreements_checked")
         rep.violation("correspondence: MVirtualFile.image_after differs from the bytes the implementation wrote (%s)" % mr[:30],
                       dict(key, relation="MVirtualFile.run_hist / image_after = VirtualFile open/add/save on a real file"), found_input=False)
         ok = False
@@ -772,7 +837,7 @@ def c09_check_cli(pid, drv, rep, case, obs, hist):
         prog = assemble(unhx(case["files"][inv["prog"]]).decode())
         payload = {"case": case, "step": i, "stdout": ob["out"][:400], "rc": ob["rc"]}
         if prog is None:
-            rep.cov["generator_rejected"] = rep.cov.get("generator_rejected", 0) + 1
+            bump(rep, "generator_rejected")
             return True
         name, origin, image = prog
         new = (name, "bin", 2, 0, origin, origin, image)
@@ -801,17 +866,17 @@ def run_c09(pid, tier, rng, drv, rep, hist):
                 fs = [("BIG%d" % i, "BIN", 2, 0, 0x0E00, 0x0E00, bytes(w["length"])) for i in range(w["count"])]
                 c09_check_history(pid, drv, rep, "cas", [("A", f) for f in fs] + [("S",)], hist)
     n_hist = {"quick": 90, "thorough": 2500}[tier]
+    hs = []
     for i in range(n_hist):
-        if rep.full():
-            break
         kind = "cas" if i % 2 == 0 else "dsk"
         ops = gen_history(rng, tier, kind)
-        rep.count((kind, enc_ops(ops)[:3000], len(enc_ops(ops))))
-        hist["history/%s/adds=%d" % (kind, sum(1 for o in ops if o[0] == "A"))] = hist.get("history/%s/adds=%d" % (kind, sum(1 for o in ops if o[0] == "A")), 0) + 1
-        hist["history/reopens=%d" % min(4, sum(1 for o in ops if o[0] == "S"))] = hist.get("history/reopens=%d" % min(4, sum(1 for o in ops if o[0] == "S")), 0) + 1
+        hs.append((kind, ops))
+        rep.count(digest([kind, enc_ops(ops)]))
+        hbump(hist, "history/%s/adds=%d" % (kind, sum(1 for o in ops if o[0] == "A")))
+        hbump(hist, "history/reopens=%d" % min(4, sum(1 for o in ops if o[0] == "S")))
         if i < 3:
             rep.sample({"container": kind, "history": ["S" if o[0] == "S" else "A(%s,%d bytes)" % (o[1][0], len(o[1][6])) for o in ops]})
-        c09_check_history(pid, drv, rep, kind, ops, hist)
+    par_map(lambda d, ko: c09_check_history(pid, d, rep, ko[0], ko[1], hist), hs, rep)
     if tier == "thorough" and not rep.full():   # growing tapes across the 161,280-byte line
         for fill in (0x00, 0x41, 0xFF):
             fs = [("G%d" % i, "BIN", 2, 0, 0x0E00, 0x0E00, bytes([fill]) * 50000) for i in range(4)]
@@ -822,12 +887,10 @@ def run_c09(pid, tier, rng, drv, rep, hist):
             c09_check_history(pid, drv, rep, "cas", ops, hist)
     cases = c09_cli_cases(rng, tier, {"quick": 16, "thorough": 300}[tier])
     allobs = run_cases(cases)
-    for case, obs in zip(cases, allobs):
-        if rep.full():
-            break
-        rep.count(json.dumps(case, sort_keys=True)[:5000])
-        hist["cli/" + case["label"]] = hist.get("cli/" + case["label"], 0) + 1
-        c09_check_cli(pid, drv, rep, case, obs, hist)
+    for case in cases:
+        rep.count(digest([case["files"], case["invs"]]))
+        hbump(hist, "cli/" + case["label"])
+    par_map(lambda d, co: c09_check_cli(pid, d, rep, co[0], co[1], hist), zip(cases, allobs), rep)
 
 
 # ---------------------------------------------------------------------------------------------
@@ -958,13 +1021,11 @@ def run_c16(pid, tier, rng, drv, rep, hist):
         cases.append(c16_bin_case(rng, tier, many=(i % 2 == 0)))
     allobs = run_cases(cases)
     for case, obs in zip(cases, allobs):
-        if rep.full():
-            break
-        rep.count(json.dumps(case, sort_keys=True)[:4000] + str(len(case["files"]["src.img"])))
-        hist[case["label"]] = hist.get(case["label"], 0) + 1
+        rep.count(digest([case["files"], case["invs"]]))
+        hbump(hist, case["label"])
         if len(rep.cov["samples"]) < 5:
             rep.sample({"case": case["label"], "files_option": case["invs"][0].get("files"), "stdout": obs[0]["out"][:200]})
-        c16_check(pid, drv, rep, case, obs, hist)
+    par_map(lambda d, co: c16_check(pid, d, rep, co[0], co[1], hist), zip(cases, allobs), rep)
 
 
 # ---------------------------------------------------------------------------------------------
@@ -1023,7 +1084,7 @@ def c11_check(pid, drv, rep, case, obs, hist):
     prog = assemble(src)
     payload = {"case": case, "stdout": ob["out"][:600], "rc": ob["rc"], "kind": "case"}
     if prog is None:
-        rep.cov["generator_rejected"] = rep.cov.get("generator_rejected", 0) + 1
+        bump(rep, "generator_rejected")
         return True
     name, origin, image = prog
     eff = name or inv.get("name") or ""
@@ -1066,11 +1127,11 @@ def c11_check(pid, drv, rep, case, obs, hist):
     if not eff:
         # the guard RETURNS: a dsk switch after a refused cas switch is skipped silently — judged by the model only
         mod = model_inv(drv, inv, ob["before"], prog)
-        rep.cov["traces_validated_against_impl"] += 1
+        bump(rep, "traces_validated_against_impl")
         if mod is not None:
             same = all(mod["fs"].get(inv["targets"][k]) == ob["after"].get(inv["targets"][k], (None,))[0] for k in inv["kinds"])
             if not same or model_event_classes("asm", mod["events"]) != out_events("asm", ob["out"]):
-                rep.cov["disagreements_checked"] += 1
+                bump(rep, "disagreements_checked")
                 rep.violation("correspondence: asm_save differs from assembler.py on a program without a name", dict(payload, relation="MVirtualFile.asm_save"), found_input=False)
                 return False
         return True
@@ -1093,16 +1154,14 @@ def run_c11(pid, tier, rng, drv, rep, hist):
     allobs = run_cases(cases)
     sizes = {}
     for case, obs in zip(cases, allobs):
-        if rep.full():
-            break
         rep.count(case["label"])
         parts = case["label"].split("/")
-        hist["name=" + parts[1]] = hist.get("name=" + parts[1], 0) + 1
-        hist["switches=" + parts[-1]] = hist.get("switches=" + parts[-1], 0) + 1
-        hist[parts[2]] = hist.get(parts[2], 0) + 1
+        hbump(hist, "name=" + parts[1])
+        hbump(hist, "switches=" + parts[-1])
+        hbump(hist, parts[2])
         if len(rep.cov["samples"]) < 5:
             rep.sample({"program": case["label"], "stdout": obs[0]["out"][:120], "files": {n: len(c[0]) for n, c in obs[0]["after"].items()}})
-        c11_check(pid, drv, rep, case, obs, hist)
+    par_map(lambda d, co: c11_check(pid, d, rep, co[0], co[1], hist), zip(cases, allobs), rep)
     rep.cov["program_sizes"] = sorted({len(assemble(src)[2]) for _, src, _ in pool if assemble(src)})
 
 
@@ -1147,7 +1206,7 @@ def run(pid, tier, seed, rep, info):
     hist = {}
     drv = VDriver()
     try:
-        {"C09": run_c09, "C10": run_c10, "C11": run_c11, "C16": run_c16}[pid](pid, tier, rng, drv, rep, hist)
+        {"C09": run_c09, "C10": run_c10, "C11": run_c11, "C16": run_c16}[pid](pid, tier, rng, drv, TSReport(rep), hist)
     finally:
         drv.close()
     rep.cov["input_distribution"] = hist
